@@ -1336,6 +1336,75 @@ impl MetadataClient for ObjectStoreMetadataClient {
         Ok(())
     }
 
+    async fn swap_compacted_chunk(
+        &self,
+        source_chunks: &[String],
+        target: &ChunkMetadata,
+    ) -> Result<()> {
+        // One conditional PUT: the sources leave and the target enters in the same catalog version.
+        let catalog = cas_retry!({
+            let (mut catalog, etag) = self.load_catalog_with_etag().await?;
+
+            let mut new_level = 0;
+            for path in source_chunks {
+                match catalog.chunks.get(path) {
+                    Some(meta) => new_level = new_level.max(meta.level),
+                    None => {
+                        return Err(Error::Metadata(format!(
+                            "Compaction source chunk no longer in catalog: {}",
+                            path
+                        )));
+                    }
+                }
+            }
+            new_level += 1;
+
+            for path in source_chunks {
+                catalog.chunks.remove(path);
+                for chunks in catalog.time_index.values_mut() {
+                    chunks.retain(|p| p != path);
+                }
+            }
+            catalog.time_index.retain(|_, chunks| !chunks.is_empty());
+
+            catalog.chunks.insert(
+                target.path.clone(),
+                ChunkMetadataExtended {
+                    base: target.clone(),
+                    column_stats: HashMap::new(),
+                    level: new_level,
+                    version: String::new(),
+                    shard_id: None,
+                },
+            );
+            let mut bucket = Self::hour_bucket(target.min_timestamp);
+            let end_bucket = Self::hour_bucket(target.max_timestamp);
+            while bucket <= end_bucket {
+                catalog
+                    .time_index
+                    .entry(bucket)
+                    .or_default()
+                    .push(target.path.clone());
+                bucket += Self::NANOS_PER_HOUR;
+            }
+            catalog.version = 2;
+
+            self.atomic_save_catalog(&catalog, etag).await?;
+            Ok(catalog)
+        })?;
+
+        {
+            let mut cache = self.catalog_cache.write().await;
+            *cache = Some((catalog, Instant::now()));
+        }
+        info!(
+            "Swapped {} chunks for compacted chunk {}",
+            source_chunks.len(),
+            target.path,
+        );
+        Ok(())
+    }
+
     async fn update_compaction_status(&self, job_id: &str, status: CompactionStatus) -> Result<()> {
         cas_retry!({
             let (mut jobs, etag) = self.load_compaction_jobs_with_etag().await?;
